@@ -36,6 +36,9 @@ RULE = (
     "o 0..2 bindings: every operation ends within 2*(instances+roots)+4 requests and never re"
     "peats the refused request."
     " One client runs 320 lenient walks against differently faulty devices."
+    ' The zero-length OID as answer at every point of a chain and as the root walked from. Af'
+    'ter a walk / bulk walk / table that timed out at request k or was abandoned, four walk-s'
+    'tyle operations on the same client end within the usual bound.'
 )
 ASSUMPTIONS = [
     "every requested column is answered (truncation belongs to C02)",
